@@ -147,7 +147,11 @@ def run(ctx: Ctx):
     # C: nested list / tuple snapshots vs Model/TreeAssign.v
     from .. import treeassign as ta
     nt_ = 500 if not ctx.thorough else 6000
-    tcases = [ta.gen_case(ctx.rng) for _ in range(nt_)]
+    tcases = []
+    for i in range(nt_):
+        ta.UNM[0] = 0.25 if i % 3 == 0 else 0.0          # a third of the cases hold Is(...) leaves (then judged by the C10 clause)
+        tcases.append(ta.gen_case(ctx.rng))
+    ta.UNM[0] = 0.0
     touts = pmap(ta.run_case, tcases, chunksize=8)
     tterms, tidx = [], []
     for i, (c, o) in enumerate(zip(tcases, touts)):
@@ -176,7 +180,8 @@ def run(ctx: Ctx):
         if o["rc1"] not in (0, 1):
             ctx.report(f"create,fix session exit status {o['rc1']}", {"kind": "session", "source": p["source"], "output": o["tail1"]})
         elif o["rc2"] != 0:
-            ctx.report("after a create,fix session the tests fail with --inline-snapshot=disable", {"kind": "session", "source": p["source"], "after": o["after"], "output": o["tail2"]})
+            ctx.report("after a create,fix session the tests fail with --inline-snapshot=disable", {"kind": "session", "source": p["source"], "after": o["after"], "output": o["tail2"]},
+                       tag="F-39" if dup_key_getitem(p["source"]) else None)
     ctx.coverage["oracle"]["session_pairs"] = len(sp)
 
 
@@ -197,7 +202,7 @@ def replay(ctx: Ctx, data):
         from .. import treeassign as ta
 
         def tt(t):
-            return ("leaf", t[1], t[2]) if t[0] == "leaf" else (t[0], [tt(x) for x in t[1]])
+            return tuple(t) if t[0] in ("leaf", "unm") else (t[0], [tt(x) for x in t[1]])
         case = {"tree": tt(c["case"]["tree"]), "new": eval(c["case"]["new_repr"]), "flags": tuple(c["case"]["flags"])}
         o = ta.run_case(case)
         print(o.get("arg"), o.get("error"), o.get("session_exc"))
